@@ -669,6 +669,14 @@ def replay(pid, r):
     if "soak_n" in r:
         res = go_exec([("s", ["soak", r["cfg"], str(r["soak_n"])])], timeout=1800).get("s", "noanswer")
         return {"soak": res[:300], "violation": not res.startswith("ok ")}
+    if "accum_shapes_hex" in r:
+        ops = []
+        for i, h_ in enumerate(r["accum_shapes_hex"]):
+            ops += [("s%d.%d" % (i, k), ["line", r["cfg"], h_]) for k in range(r["accum_repeats"])]
+        ops.append(("x", ["line", r["cfg"], hx(r["input"])]))
+        ses = go_exec(ops, timeout=1800).get("x", "noanswer")
+        alone = go_exec([("x", ["line", r["cfg"], hx(r["input"])])]).get("x", "noanswer")
+        return {"in_session": out_text(ses) or ses[:300], "alone": out_text(alone) or alone[:300], "violation": ses != alone}
     if "session_before_hex" in r:
         ops = [("b%d" % i, ["line", r["cfg"], h]) for i, h in enumerate(r["session_before_hex"])] + [("x", ["line", r["cfg"], hx(r["input"])])]
         ses = go_exec(ops).get("x", "noanswer")
@@ -3054,10 +3062,96 @@ def history_violations(pid, tables, seed, tier, deep):
     return viol, n, h
 
 
+_ACCUM = {}
+
+
+def accumulation_records(tables, seed, tier, deep):
+    """State that builds up slowly: ONE process is fed, for each of many line shapes (every table path under an array of
+    mixed operands, scalar operands of operator arrays, grammar lines, malformed lines), the same shape R times in a row
+    and then a fixed probe set; every probe output must equal the probe's output in a fresh process."""
+    key = (seed, tier == "thorough" or deep)
+    if key in _ACCUM:
+        return _ACCUM[key]
+    big = key[1]
+    rng = SplitMix(seed ^ 0xACC)
+    shapes = []
+    seen = set()
+    for tname, path, vk, val in sweep_cases(tables):
+        if vk != "arrlit" or (tname, path[:1]) in seen:
+            continue
+        seen.add((tname, path[:1]))
+        for kind, tree in wrap_positions(tname, path, val)[:1]:
+            cmd = Obj([("find", "c"), ("filter", tree)]) if kind == "query" else Obj([("aggregate", "c"), ("pipeline", [tree])])
+            shapes.append(to_json(Obj([("c", "COMMAND"), ("msg", "Slow query"), ("attr", Obj([("ns", "d.c"), ("command", cmd)]))])))
+    for st in ('{"$match":{"$and":["$active",{"a":1}]}}', '{"$match":{"$expr":{"$or":["$urgent","$overdue",true,7]}}}', '{"$search":{"compound":{"must":["lit",{"text":{"query":"q","path":"p"}}]}}}',
+               '{"$project":{"x":{"$or":[true,"s",null]}}}', '{"$facet":{"f":[5,"s",{"$limit":3}]}}', '{"$lookup":{"from":"c2","pipeline":["s",{"$match":{"a":[[["deep"]]]}}],"as":"o"}}'):
+        shapes.append('{"c":"COMMAND","msg":"Slow query","attr":{"ns":"d.c","command":{"aggregate":"c","pipeline":[%s]}}}' % st)
+    for _ in range(60 if big else 12):
+        shapes.append(to_json(G(rng.fork(), exotic=True).line()))
+    shapes += ['not json', '{"c":"COMMAND","attr":{"command":{"filter":{"a":{"$date":1}}}}}', '{"c":"NETWORK","attr":{"remote":"10.0.0.1:5"}}', '[1,2]', '']
+    shapes = [s_ for s_ in shapes if "\n" not in s_]
+    if not big:
+        shapes = shapes[:: max(1, len(shapes) // 70)]
+    probes = [to_json(G(rng.fork()).line()) for _ in range(14)]
+    probes += ['{"c":"COMMAND","msg":"Slow query","attr":{"ns":"d.c","command":{"find":"c","filter":{"name":"zq777001xs","n":{"$gt":41},"tags":{"$in":["zq777002xs","zq777003xs"]}},"$db":"d"},"planSummary":"IXSCAN { name: 1 }"}}',
+               '{"c":"COMMAND","msg":"Slow query","attr":{"ns":"d.c","command":{"aggregate":"c","pipeline":[{"$match":{"$and":[{"a":"zq777004xs"},{"b":{"$oid":"5f0000000000000000000001"}}]}},{"$limit":5}],"$db":"d"}}}']
+    probes = [p_ for p_ in probes if "\n" not in p_]
+    R = 400 if big else 150
+    cfgs = [Cfg(), Cfg(n=True, b=True, w=True)] + ([Cfg(eager=("d",)), Cfg(re="^(name|a)$"), Cfg(enc=3)] if big else [])
+    recs = []
+    for c in cfgs:
+        cs_ = c.s() if not c.re else corr.cfg_str(c, None, extra_strings=["name", "a", "b", "n", "tags"])
+        alone = {}
+        for j, p_ in enumerate(probes):
+            alone[j] = go_exec([("a", ["line", cs_, hx(p_)])]).get("a", "noanswer")
+        ops = []
+        for i, sh in enumerate(shapes):
+            for k in range(R):
+                ops.append(("s%d.%d" % (i, k), ["line", cs_, hx(sh)]))
+            for j, p_ in enumerate(probes):
+                ops.append(("p%d.%d" % (i, j), ["line", cs_, hx(p_)]))
+        res = go_exec(ops, timeout=1800)
+        for i, sh in enumerate(shapes):
+            for j, p_ in enumerate(probes):
+                got = res.get("p%d.%d" % (i, j), "noanswer")
+                if got != alone[j]:
+                    recs.append({"cfg": c, "cfg_str": cs_, "probe": p_, "after_shape": i, "session": got, "alone": alone[j]})
+                    break
+            if len(recs) >= 3:
+                break
+        _ACCUM.setdefault("meta", {})[c.s()] = (len(shapes), R, len(probes))
+    out = {"records": recs, "shapes": shapes, "repeats": R, "probes": len(probes), "cfgs": len(cfgs)}
+    _ACCUM[key] = out
+    return out
+
+
+def accumulation_violations(pid, tables, seed, tier, deep):
+    a = accumulation_records(tables, seed, tier, deep)
+    scope = HISTORY_SCOPE[pid]
+    tokre = pyre.compile(r"zq\d+x[se]")
+    viol = []
+    for r in a["records"]:
+        if not scope(r["cfg"]):
+            continue
+        so, ao = out_text(r["session"]), out_text(r["alone"])
+        if pid == "C01":
+            leaked = [t for t in set(tokre.findall(so or "")) if t not in (ao or "")]
+            if not leaked:
+                continue
+        viol.append({"site": "history:accumulated-state", "why": HISTORY_WHY[pid], "cfg": r["cfg_str"], "input": r["probe"],
+                     "accum_shapes_hex": [hx(s_) for s_ in a["shapes"][: r["after_shape"] + 1]], "accum_repeats": a["repeats"],
+                     "in_session": (so if so is not None else r["session"])[:1500], "alone": (ao if ao is not None else r["alone"])[:1500],
+                     "detail": "after %d line shapes fed %d times each in one process, this line comes out differently than in a fresh process" % (r["after_shape"] + 1, a["repeats"])})
+    return viol, len(a["shapes"]) * (a["repeats"] + a["probes"]) * a["cfgs"]
+
+
 def with_history(pid, fn):
     def wrapped(tables, seed, tier, deep):
         r = fn(tables, seed, tier, deep)
         v, n, h = history_violations(pid, tables, seed, tier, deep)
+        v2, n2 = accumulation_violations(pid, tables, seed, tier, deep)
+        v = v + v2
+        r["stats"]["summary"]["accumulation_lines"] = n2
         if v:
             r["violations"] = result(r["violations"] + v, 0, 0, "", {}, [])["violations"]
             r["stats"]["summary"]["violating_sites"] = len(r["violations"])
